@@ -546,6 +546,18 @@ pub fn extra_pairs() -> Vec<MCase> {
         }
     }
     let _ = levels;
+    // ---- (D) two function values whose parameters are named differently meet in one type (arms of an
+    // if, elements of an array, two uses of one higher-order parameter): renaming a parameter of one of
+    // them must not change whether the program compiles
+    let meets: [(&str, &str); 4] = [
+        ("if-arms", "fn scale(p, k){ p * k }\nfn dsp(){\n  let g = |Q, k| { Q - k }\n  let h = if (now % 2) scale else g\n  h(3.0, 7.0)\n}\n"),
+        ("array-elements", "fn scale(p, k){ p * k }\nfn minus(Q, k){ Q - k }\nfn dsp(){\n  let fs = [scale, minus]\n  fs[now % 2](3.0, 7.0)\n}\n"),
+        ("hof-parameter-twice", "fn scale(p, k){ p * k }\nfn app(f){ f(3.0, 7.0) }\nfn dsp(){\n  let g = |Q, k| { Q - k }\n  app(scale) + app(g)\n}\n"),
+        ("if-arms-typed-aggregate", "fn scale(p:(float,float), k:float){ p.0 * k + p.1 }\nfn dsp(){\n  let t = (now, now + 0.25)\n  let g = |Q:(float,float), k:float| { Q.0 - Q.1 * k }\n  let h = if (now % 2) scale else g\n  h(t, 7.0)\n}\n"),
+    ];
+    for (mtag, body) in meets {
+        push(&format!("rename-parameter-of-function-value-meeting-another/{mtag}"), body.replace('Q', "p"), body.replace('Q', "q"));
+    }
     // ---- (B)
     let ops: [(&str, &str); 6] = [
         ("field-read", "  r.F1 + r.F2 * 10.0 + r.F3 * 100.0\n"),
